@@ -19,7 +19,7 @@ def prop(pid, rules, explanation, decided, not_decided, controls=True, assumptio
 
 
 prop('C19',
-     [T.r19_a, T.r19_b, T.r19_c, T.r19_d, T.r19_e, T.r19_f, T.r19_g],
+     [T.r19_a, T.r19_b, T.r19_c, T.r19_d, T.r19_e, T.r19_f, T.r19_h, T.r19_g],
      'Abstract interpretation of the tokenizer (driver next_token + the ordered rule registry, read from the '
      'AST of tokens.py) over category windows: every input string is abstracted to its string of character '
      'categories, guards split abstract states per inspected slot, loops are solved to fixpoint.  The resulting '
@@ -54,7 +54,7 @@ prop('C06',
      'exceptions from non-constant subscripts and .index() in general; recursion depth; wall-clock time; memory.')
 
 prop('C20',
-     [B.r20_a, B.r20_b, B.r20_c, B.r20_d],
+     [B.r20_a, B.r20_b, B.r20_c, B.r20_d, B.r20_e],
      'Affine abstract interpretation of utils.Buffer: the cursor field (identified as what `position` returns) is '
      'tracked as an affine form over its entry value, the integer parameters and one iteration counter per loop '
      '(Karr-style invariant for paired increments); methods are summarised with symbolic arguments and the '
@@ -68,7 +68,7 @@ prop('C20',
 
 
 prop('C08',
-     [CV.r08_a, CV.r08_b, CV.r08_c, CV.r08_d, CV.r08_e, CV.t_agree, T.r19_b, T.r19_f],
+     [CV.r08_a, CV.r08_b, CV.r08_c, CV.r08_d, CV.r08_e_parse_only, CV.t_agree, T.r19_b, T.r19_f],
      'Linear-resource (token conservation) analysis of reader.py: every token taken from the cursor and every value '
      'returned by a reader call is a resource; along every enumerated path (loops 0/1/2 times, callee result shapes '
      'per constant-argument context, to a fixpoint) each resource must be stored in the tree, returned, handed to a '
@@ -82,7 +82,7 @@ prop('C08',
      'character-for-character equality of output and input; alignment of the output against the input.')
 
 prop('C01',
-     [CV.r08_a_adjacent, CV.r08_b_wellformed, CV.r08_d, CV.r08_e, CV.t_agree, CV.r01_a, RO.r11_b, RO.r11_c, T.r19_b, T.r19_c, T.r19_f],
+     [CV.r08_a_adjacent, CV.r08_b_wellformed, CV.r08_d, CV.r08_e_parse_only, CV.t_agree, CV.r01_a, RO.r11_c, T.r19_b, T.r19_c, T.r19_f],
      'The conservation skeleton of C08 restricted to what a well-formed document reaches, plus raw capture of '
      'skipped-environment bodies and rollback completeness of the tokenizer (the spacer rule restores the cursor '
      'exactly when it emits nothing).',
@@ -160,7 +160,7 @@ prop('C02',
 
 
 prop('C13',
-     [T.r19_a, T.r19_e, PO.r13_b, PO.r13_c, PO.r13_d],
+     [T.r19_a, T.r19_e, T.r19_h, PO.r13_b, PO.r13_c, PO.r13_d, PO.r13_e],
      'Provenance of positions from the categoriser to the node constructors: the tokenizer abstract interpretation '
      'gives the provenance of every token position; a symbolic (affine) evaluation of the position argument of every '
      'Token built by the Token arithmetic methods; the conservation engine records, for every node the reader builds, '
@@ -219,7 +219,7 @@ prop('C15',
      'equivalence with a reference document model over edit histories.')
 
 prop('C17',
-     [ISO.r17_a, ISO.r17_b, ISO.r17_c, ISO.r17_d, T.r17_e],
+     [ISO.r17_a, ISO.r17_b, ISO.r17_c, ISO.r17_d, ISO.r17_f, TR.r15_a, T.r17_e],
      'Who-may-write rules over module-level objects, class attributes and default-argument objects; classification '
      'of every iteration over a constant set (folded by the analyser) as order-insensitive or first-match, with a '
      'prefix-freeness check of the folded elements; def-use of the entry points\' return values; provenance of tokens '
@@ -231,7 +231,7 @@ prop('C17',
      'equality of results across input forms (chunks, files) beyond the flattening step.')
 
 prop('C18',
-     [AR.r18_a, AR.r18_b, AR.r18_c, AR.r18_d, AR.r18_e],
+     [AR.r18_a, AR.r18_b, AR.r18_c, AR.r18_f, AR.r18_d, AR.r18_e],
      'Path-wise effect/typestate analysis of the TexArgs mutators (list proper vs. shadow sequence), signature '
      'comparison with list, and def-use of the serialisers.',
      'R18.a every named list operation is overridden and keeps the two sequences paired; R18.b the signatures accept '
